@@ -73,6 +73,8 @@ def receiving(ctx):
     tf = core.run_runner(ctx, "frames", scen, tag="recvctx")
     acc, rej = core.validate(ctx, "TraceFrames", tf, tag="recvctx", sigfn=p_frames.sig(ctx.prop))
     core.judge(ctx, rej)
+    # "while sending": the context ends when the transport has consumed k bytes of the request, for every k
+    p_frames.sendside(ctx, ("ctxc", "ctxd"))
 
 
 def run_call(ctx, want_cancel):
